@@ -71,6 +71,22 @@ def zeroTail (single : Bool) (p : Parts) : Bool :=
 def negIntF32 (p : Parts) : Bool :=
   p.neg && p.frac.isNone && p.exp.isNone && p.int.length ≤ 20 && natOfDigits p.int > 2 ^ 63 && natOfDigits p.int < 2 ^ 64
 
+/-- shape of known finding F-C07-moderate-truncated: a mantissa cut to 19 digits that is `< 2^61` (normalised by
+    3 bits, so the ≤ 1 unit lost becomes ≤ 8), scaled by the cached `10^-230` alone (the one cached power with
+    `8·mant/2^64 + frac > 8.5`), accepted by `error_is_accurate` although the true error can exceed the 9 units booked -/
+def moderateTruncated (p : Parts) : Bool :=
+  match deCall p with
+  | .truncated integer fraction e =>
+    let fraction := trimTrailingZeros fraction
+    let (m, t) := truncatedMantissa (integer ++ fraction) 0
+    t > 0 && m < 2 ^ 61 && mantissaExponent e fraction.length t == -230 && pathOf false (deCall p) == .moderate
+  | _ => false
+
+def prevBits (s : String) : String :=
+  match natOfHex (s.drop 1).toString with
+  | some n => "B" ++ hexN (s.length - 1) (n - 1)
+  | none => s
+
 def nextBits (s : String) : String :=
   match natOfHex (s.drop 1).toString with
   | some n => "B" ++ hexN (s.length - 1) (n + 1)
@@ -85,7 +101,8 @@ def f64rt : Handler := fun args impl =>
       match toF64 (deFloatRoundtrip false p) with
       | some m =>
         let want := show64 (spec64 p)
-        let tag := if zeroTail false p && impl == nextBits want then " [zero-tail]" else ""
+        let tag := if zeroTail false p && impl == nextBits want then " [zero-tail]"
+                   else if moderateTruncated p && impl == prevBits want then " [moderate-truncated]" else ""
         { model := show64 m,
           specs := if impl == want then [] else
             [s!"C07 f64{tag}: got {impl}, the correctly rounded value of the literal is {want}"] }
